@@ -56,8 +56,11 @@ CONSTANTS NS,               \* number of sessions
           NO,               \* number of rows of T
           MaxOps,           \* program length (C / X not counted)
           KA, KB,           \* kinds of the attributes a and b
-          Modes,            \* subset of {"opt", "imm", "ser"}: db_session(), (immediate=True), (serializable=True | optimistic=False)
-          OpSet,            \* operation alphabet: subset of {"R","W","D","Q","QFU","GFU","RC","LC","F","X"}
+          Modes1, ModesN,   \* modes of session 1 / of the other sessions: subsets of {"opt", "imm", "ser"}:
+                            \* db_session(), (immediate=True), (serializable=True | optimistic=False)
+          OpSet1, OpSetN,   \* operation alphabet of session 1 / of the other sessions:
+                            \* subsets of {"R","W","D","Q","QFU","GFU","RC","LC","F","X"}
+                            \* (equal sets: symmetric sessions; different sets: e.g. one reader and writers)
           LockModes,        \* subset of {"wait","nowait","skip_locked"}
           RefPhantomRemove  \* TRUE: reference behaviour of db_reverse_remove; FALSE: what the code does
 
@@ -79,34 +82,37 @@ VARIABLES row, exists,          \* committed database
           txrow, txexists,      \* working copy of the lock holder (= committed when nobody holds the lock)
           lockHolder, waiting,  \* provider.transaction_lock / FIFO of blocked acquirers
           mode, pc, result, pending,
-          status, dbval, val, rbits, wbits, forUpdate, collItems, collFull,
+          status, dbval, val, rbits, wbits, notLoaded, forUpdate, collItems, collFull,
           seen, collSeen, written, locked, applied,
           ev
 
 dbvars   == <<row, exists, txrow, txexists, lockHolder, waiting>>
-sessvars == <<mode, pc, result, pending, status, dbval, val, rbits, wbits, forUpdate, collItems, collFull>>
+sessvars == <<mode, pc, result, pending, status, dbval, val, rbits, wbits, notLoaded, forUpdate, collItems, collFull>>
 ghosts   == <<seen, collSeen, written, locked, applied>>
 vars     == <<dbvars, sessvars, ghosts, ev>>
 
 NoOp == [k |-> "-", o |-> 0, x |-> "-", m |-> "-"]
 Op(k, o, x, m) == [k |-> k, o |-> o, x |-> x, m |-> m]
 
-ProgOps ==
+AllProgOps ==
     {op \in    {Op("R", o, x, "-") : o \in Objs, x \in Attrs}
           \cup {Op("W", o, x, "-") : o \in Objs, x \in Attrs}
           \cup {Op("D", o, "-", "-") : o \in Objs}
           \cup {Op("GFU", o, "-", m) : o \in Objs, m \in LockModes}
           \cup {Op("QFU", 0, "-", m) : m \in LockModes}
-          \cup {Op(k, 0, "-", "-") : k \in {"Q", "RC", "LC", "F"}} : op.k \in OpSet}
-EndOps == {Op("C", 0, "-", "-")} \cup (IF "X" \in OpSet THEN {Op("X", 0, "-", "-")} ELSE {})
+          \cup {Op(k, 0, "-", "-") : k \in {"Q", "RC", "LC", "F"}} : op.k \in OpSet1 \cup OpSetN}
+OpSetOf(s) == IF s = 1 THEN OpSet1 ELSE OpSetN
+ModesOf(s) == IF s = 1 THEN Modes1 ELSE ModesN
+ProgOps(s) == {op \in AllProgOps : op.k \in OpSetOf(s)}
+EndOps(s)  == {Op("C", 0, "-", "-")} \cup (IF "X" \in OpSetOf(s) THEN {Op("X", 0, "-", "-")} ELSE {})
 
 (* ------------------------------- session-local state as a record ------------------------------ *)
-Sess(s) == [st |-> status[s], dv |-> dbval[s], v |-> val[s], rb |-> rbits[s], wb |-> wbits[s],
+Sess(s) == [st |-> status[s], dv |-> dbval[s], v |-> val[s], rb |-> rbits[s], wb |-> wbits[s], nl |-> notLoaded[s],
             fu |-> forUpdate[s], ci |-> collItems[s], cf |-> collFull[s]]
 
 BlankSess == [st |-> [o \in Objs |-> "none"], dv |-> [o \in Objs |-> [x \in Attrs |-> 0]],
               v |-> [o \in Objs |-> [x \in Attrs |-> 0]], rb |-> [o \in Objs |-> {}], wb |-> [o \in Objs |-> {}],
-              fu |-> {}, ci |-> {}, cf |-> FALSE]
+              nl |-> [o \in Objs |-> {}], fu |-> {}, ci |-> {}, cf |-> FALSE]
 
 Gone(S, o)    == S.st[o] \in {"marked", "deleted"}
 ModObjs(S)    == {o \in Objs : S.st[o] = "modified"}
@@ -118,7 +124,8 @@ OptSession(s) == mode[s] # "ser"
 
 (* does the operation reach the database? *)
 HitsDb(S, op) ==
-    CASE op.k \in {"R", "W", "D"} -> S.st[op.o] = "none"
+    CASE op.k = "R"             -> S.st[op.o] = "none" \/ op.x \in S.nl[op.o]   \* Attribute.load -> obj._load_()
+      [] op.k \in {"W", "D"}      -> S.st[op.o] = "none"
       [] op.k \in {"Q", "QFU"}    -> TRUE
       [] op.k = "GFU"             -> op.o \notin S.fu      \* _find_in_cache_: found but not locked => query
       [] op.k \in {"RC", "LC"}    -> ~S.cf                 \* Set.load unless fully loaded
@@ -151,7 +158,9 @@ FlushS(S) ==
               !.dv = [o \in Objs |-> IF o \in ModObjs(S) THEN [x \in Attrs |-> IF x \in S.wb[o] THEN S.v[o][x] ELSE S.dv[o][x]]
                                      ELSE S.dv[o]],
               !.rb = [o \in Objs |-> IF o \in ModObjs(S) THEN S.rb[o] \cup {x \in S.wb[o] : Tracked(x)} ELSE S.rb[o]],
-              !.wb = [o \in Objs |-> IF o \in ModObjs(S) \cup DelObjs(S) THEN {} ELSE S.wb[o]]]
+              !.wb = [o \in Objs |-> IF o \in ModObjs(S) \cup DelObjs(S) THEN {} ELSE S.wb[o]],
+              \* _update_dbvals_: values of volatile attributes are forgotten after an UPDATE ("may be changed in the DB")
+              !.nl = [o \in Objs |-> IF o \in ModObjs(S) THEN {x \in Attrs : ~Tracked(x)} ELSE S.nl[o]]]
 (* history records of the statements that changed a row (ghost) *)
 FlushRecs(S, D, s) ==
     {[s |-> s, o |-> o, kind |-> IF o \in ModObjs(S) THEN "upd" ELSE "del", before |-> D.row[o],
@@ -161,18 +170,22 @@ FlushRecs(S, D, s) ==
         o \in {p \in ModObjs(S) : Matches(S, D, s, p)} \cup {p \in DelObjs(S) : D.ex[p]}}
 
 (* ------------------------------- delivery of rows (Entity._db_set_) -------------------------- *)
-Changed(S, o, r) == {x \in Attrs : S.dv[o][x] # r[x]}
-DeliverOk(S, o, r) ==
-    CASE S.st[o] = "none" -> ~(HasLink /\ S.cf /\ r[LinkA] = 1)                     \* phantom appeared (db_reverse_add)
-      [] Gone(S, o)       -> TRUE                                                   \* del_statuses: row skipped
-      [] OTHER            -> /\ Changed(S, o, r) \cap S.rb[o] = {}                  \* read and changed => UnrepeatableReadError
-                             /\ \A x \in Changed(S, o, r) :
-                                  (Kind[x] = "link" /\ S.cf) => (r[x] = 0 /\ ~RefPhantomRemove)
+Changed(S, o, r) == {x \in Attrs \ S.nl[o] : S.dv[o][x] # r[x]}
+(* why a delivery fails: "read_changed" (read bit set and value changed), "phantom_add" (Set.db_reverse_add on a
+   fully loaded collection), "phantom_remove" (an item leaves a fully loaded collection: Set.db_reverse_remove) *)
+Live(S, o) == S.st[o] # "none" /\ ~Gone(S, o)
+ReadChanged(S, o, r)   == Live(S, o) /\ Changed(S, o, r) \cap S.rb[o] # {}
+PhantomAdd(S, o, r)    == HasLink /\ S.cf /\ r[LinkA] = 1 /\ (S.st[o] = "none" \/ (Live(S, o) /\ S.dv[o][LinkA] = 0))
+PhantomRemove(S, o, r) == HasLink /\ S.cf /\ Live(S, o) /\ r[LinkA] = 0 /\ S.dv[o][LinkA] = 1
+DeliverOk(S, o, r) == ~ReadChanged(S, o, r) /\ ~PhantomAdd(S, o, r) /\ (RefPhantomRemove => ~PhantomRemove(S, o, r))
+Why(S, T, D) == IF \E o \in T : ReadChanged(S, o, D.row[o]) THEN "read_changed"
+                ELSE IF \E o \in T : PhantomAdd(S, o, D.row[o]) THEN "phantom_add"
+                ELSE IF \E o \in T : PhantomRemove(S, o, D.row[o]) THEN "phantom_remove" ELSE "-"
 Deliver1(S, o, r, fu) ==     \* new (st, dv, v, rb, wb) of o, assuming DeliverOk
-    IF S.st[o] = "none" THEN [st |-> "loaded", dv |-> r, v |-> r, rb |-> {}, wb |-> {}]
-    ELSE IF Gone(S, o) THEN [st |-> S.st[o], dv |-> S.dv[o], v |-> S.v[o], rb |-> S.rb[o], wb |-> S.wb[o]]
+    IF S.st[o] = "none" THEN [st |-> "loaded", dv |-> r, v |-> r, rb |-> {}, wb |-> {}, nl |-> {}]
+    ELSE IF Gone(S, o) THEN [st |-> S.st[o], dv |-> S.dv[o], v |-> S.v[o], rb |-> S.rb[o], wb |-> S.wb[o], nl |-> S.nl[o]]
     ELSE [st |-> S.st[o], dv |-> r, v |-> [x \in Attrs |-> IF x \in S.wb[o] /\ Tracked(x) THEN S.v[o][x] ELSE r[x]],
-          rb |-> S.rb[o], wb |-> S.wb[o]]
+          rb |-> S.rb[o], wb |-> S.wb[o], nl |-> {}]
 DeliverAll(S, T, D, fu) ==
     LET n(o) == Deliver1(S, o, D.row[o], fu)
         live == {o \in T : ~Gone(S, o)}
@@ -181,6 +194,7 @@ DeliverAll(S, T, D, fu) ==
         v  |-> [o \in Objs |-> IF o \in T THEN n(o).v  ELSE S.v[o]],
         rb |-> [o \in Objs |-> IF o \in T THEN n(o).rb ELSE S.rb[o]],
         wb |-> [o \in Objs |-> IF o \in T THEN n(o).wb ELSE S.wb[o]],
+        nl |-> [o \in Objs |-> IF o \in T THEN n(o).nl ELSE S.nl[o]],
         fu |-> IF fu THEN S.fu \cup live ELSE S.fu,
         ci |-> IF HasLink THEN (S.ci \ {o \in live : D.row[o][LinkA] = 0}) \cup {o \in live : D.row[o][LinkA] = 1}
                ELSE S.ci,
@@ -196,7 +210,7 @@ Targets(S, D, op) ==
 WriteVal(s, S, op) == IF Kind[op.x] = "link" THEN 1 - S.v[op.o][op.x] ELSE s
 Py(s, S, op) ==
     CASE op.k = "R" -> [S EXCEPT !.rb[op.o] = IF op.x \notin S.wb[op.o] /\ Tracked(op.x) THEN @ \cup {op.x} ELSE @]
-      [] op.k = "W" -> [S EXCEPT !.st[op.o] = "modified", !.wb[op.o] = @ \cup {op.x},
+      [] op.k = "W" -> [S EXCEPT !.st[op.o] = "modified", !.wb[op.o] = @ \cup {op.x}, !.nl[op.o] = @ \ {op.x},
                                  !.v[op.o][op.x] = WriteVal(s, S, op),
                                  !.ci = IF Kind[op.x] # "link" THEN @
                                         ELSE IF WriteVal(s, S, op) = 1 THEN @ \cup {op.o} ELSE @ \ {op.o}]
@@ -205,18 +219,18 @@ Py(s, S, op) ==
       [] OTHER -> S
 
 (* --------------------------------------- initial state --------------------------------------- *)
-NoEv == [s |-> 0, k |-> "init", o |-> 0, x |-> "-", m |-> "-", step |-> "init", out |-> "ok", retv |-> 0, rets |-> {}]
+NoEv == [s |-> 0, k |-> "init", o |-> 0, x |-> "-", m |-> "-", step |-> "init", out |-> "ok", why |-> "-", retv |-> 0, rets |-> {}]
 Init ==
     /\ row = InitRow /\ exists = [o \in Objs |-> TRUE]
     /\ txrow = InitRow /\ txexists = [o \in Objs |-> TRUE]
     /\ lockHolder = 0 /\ waiting = <<>>
-    /\ mode \in [Sessions -> Modes]
+    /\ mode \in {f \in [Sessions -> Modes1 \cup ModesN] : \A s \in Sessions : f[s] \in ModesOf(s)}
     /\ pc = [s \in Sessions |-> 0]
     /\ result = [s \in Sessions |-> "running"]
     /\ pending = [s \in Sessions |-> NoOp]
     /\ status = [s \in Sessions |-> BlankSess.st] /\ dbval = [s \in Sessions |-> BlankSess.dv]
     /\ val = [s \in Sessions |-> BlankSess.v] /\ rbits = [s \in Sessions |-> BlankSess.rb]
-    /\ wbits = [s \in Sessions |-> BlankSess.wb] /\ forUpdate = [s \in Sessions |-> {}]
+    /\ wbits = [s \in Sessions |-> BlankSess.wb] /\ notLoaded = [s \in Sessions |-> BlankSess.nl] /\ forUpdate = [s \in Sessions |-> {}]
     /\ collItems = [s \in Sessions |-> {}] /\ collFull = [s \in Sessions |-> FALSE]
     /\ seen = [s \in Sessions |-> [o \in Objs |-> [x \in Attrs |-> Unseen]]]
     /\ collSeen = [s \in Sessions |-> [known |-> FALSE, set |-> {}]]
@@ -229,6 +243,7 @@ Init ==
 SetSess(s, S) ==
     /\ status' = [status EXCEPT ![s] = S.st] /\ dbval' = [dbval EXCEPT ![s] = S.dv]
     /\ val' = [val EXCEPT ![s] = S.v] /\ rbits' = [rbits EXCEPT ![s] = S.rb] /\ wbits' = [wbits EXCEPT ![s] = S.wb]
+    /\ notLoaded' = [notLoaded EXCEPT ![s] = S.nl]
     /\ forUpdate' = [forUpdate EXCEPT ![s] = S.fu] /\ collItems' = [collItems EXCEPT ![s] = S.ci]
     /\ collFull' = [collFull EXCEPT ![s] = S.cf]
 
@@ -255,7 +270,8 @@ Exec(s, op, how) ==
     \E D1 \in {IF fl THEN FlushDB(S0, D0, s) ELSE D0} :
     \E recs \in {IF fl THEN FlushRecs(S0, D0, s) ELSE {}} :
     \E T \in {Targets(S1, D1, op)} :
-    \E dfail \in {\E o \in T : ~DeliverOk(S1, o, D1.row[o])} :
+    \E gone \in {op.k = "R" /\ S1.st[op.o] # "none" /\ op.x \in S1.nl[op.o] /\ ~D1.ex[op.o]} :   \* obj._load_(): phantom object disappeared
+    \E dfail \in {gone \/ \E o \in T : ~DeliverOk(S1, o, D1.row[o])} :
     \E S2a \in {DeliverAll(S1, T, D1, op.k \in {"GFU", "QFU"})} :
     \E S2 \in {IF op.k \in {"RC", "LC"} THEN [S2a EXCEPT !.cf = TRUE] ELSE S2a} :
     \E none \in {op.k \in {"R", "W", "D", "GFU"} /\ S2.st[op.o] = "none"} :      \* T.get(id=o) returned None
@@ -273,7 +289,8 @@ Exec(s, op, how) ==
                    [] OTHER -> {}} :
     \E mine \in {{r \in applied : r.s = s}} :
     \E newLocked \in {IF op.k \in {"GFU", "QFU"} \/ mode[s] = "ser" THEN live ELSE {}} :
-    /\ ev' = [s |-> s, k |-> op.k, o |-> op.o, x |-> op.x, m |-> op.m, step |-> how, out |-> out, retv |-> retv, rets |-> rets]
+    /\ ev' = [s |-> s, k |-> op.k, o |-> op.o, x |-> op.x, m |-> op.m, step |-> how, out |-> out,
+              why |-> IF out = "unrepeatable_error" THEN (IF gone THEN "object_disappeared" ELSE Why(S1, T, D1)) ELSE "-", retv |-> retv, rets |-> rets]
     /\ UNCHANGED mode
     /\ IF out \in {"optimistic_error", "unrepeatable_error"}
        THEN \* the exception leaves the db_session: rollback, lock released
@@ -312,16 +329,16 @@ Exec(s, op, how) ==
    not available, the step only records the blocked acquirer (TryBegin); otherwise it runs. *)
 Step(s, op) ==
     /\ result[s] = "running" /\ pending[s] = NoOp
-    /\ op \in EndOps \/ (op \in ProgOps /\ pc[s] < MaxOps)
+    /\ op \in EndOps(s) \/ (op \in ProgOps(s) /\ pc[s] < MaxOps)
     /\ OpEnabled(Sess(s), op)
-    /\ pc' = [pc EXCEPT ![s] = IF op \in ProgOps THEN @ + 1 ELSE @]
+    /\ pc' = [pc EXCEPT ![s] = IF op \in ProgOps(s) THEN @ + 1 ELSE @]
     /\ IF NeedsLock(s, Sess(s), op) /\ ~(lockHolder = 0 /\ waiting = <<>>)
        THEN /\ waiting' = Append(waiting, s)
             /\ pending' = [pending EXCEPT ![s] = op]
             /\ ev' = [s |-> s, k |-> op.k, o |-> op.o, x |-> op.x, m |-> op.m, step |-> "run", out |-> "blocked",
-                      retv |-> 0, rets |-> {}]
+                      why |-> "-", retv |-> 0, rets |-> {}]
             /\ UNCHANGED <<row, exists, txrow, txexists, lockHolder, mode, result, status, dbval, val, rbits, wbits,
-                           forUpdate, collItems, collFull, ghosts>>
+                           notLoaded, forUpdate, collItems, collFull, ghosts>>
        ELSE /\ Exec(s, op, "run")
             /\ UNCHANGED <<waiting, pending>>
 
@@ -333,7 +350,7 @@ Granted(s) ==
     /\ UNCHANGED pc
     /\ Exec(s, pending[s], "grant")
 
-Next == \E s \in Sessions : Granted(s) \/ \E op \in ProgOps \cup EndOps : Step(s, op)
+Next == \E s \in Sessions : Granted(s) \/ \E op \in ProgOps(s) \cup EndOps(s) : Step(s, op)
 
 Spec == Init /\ [][Next]_vars
 
